@@ -1,4 +1,4 @@
 SPECIFICATION Spec
-INVARIANTS BindingOK FinalAgrees CleanFailure CleanFailureInputs Atomic HiddenOnlyNow Publishes NoEscape
+INVARIANTS BindingOK FinalAgrees CleanFailure CleanFailureInputs Atomic HiddenOnlyNow Publishes NoEscape NeverTorn DurableOnOk
 POSTCONDITION TraceAccepted
 CHECK_DEADLOCK FALSE
